@@ -89,14 +89,16 @@ impl Profile {
     }
     pub fn bytes_needed(&self) -> usize {
         let n = self.max_slots;
-        42 + n * (6 + 2 * n) + self.max_steps * (16 + 3 * (5 * n + 12))
+        43 + n * (6 + 2 * n) + self.max_steps * (17 + 3 * (5 * n + 12))
     }
 }
 
 fn decode_sched(src: &mut Src, n: usize, feat: u16) -> Sched {
     let max_running = if feat & F_CONC != 0 { 1 + src.below(4) as u8 } else { src.u8(); 1 };
     let ack_mode = if feat & F_LATEACK != 0 { src.below(3) as u8 } else { src.u8(); 0 };
-    let decl_on = src.chance(128) && feat & F_DECL != 0;
+    // declaration order: sorted (upstream first) or permuted; several defects need downstreams
+    // or a particular sibling to be declared first
+    let decl_on = if feat & F_DECL != 0 { src.chance(200) } else { src.chance(64) };
     let decl = src.bytes(2 * n + 6);
     let choices = src.bytes(3 * n + 4);
     Sched {
@@ -115,11 +117,13 @@ pub fn decode(data: &[u8], prof: &Profile) -> Scenario {
     // motif selection at a fixed position of the stream (stable under libFuzzer mutations)
     let mb = src.u8();
     let mv = src.u8();
+    let anon = src.chance(56) && feat & F_CONSUMED == 0;
     let n = 2 + src.below(prof.max_slots.saturating_sub(1).max(1));
     let cfg = Config {
         scope: if feat & F_CONSUMED != 0 { Scope::Consumed } else { Scope::Whole },
         stamps: feat & F_STAMPS != 0,
         names: if feat & F_OUTNAMES != 0 { Names::Outputs } else { Names::JobIds },
+        anon,
     };
     let ksum = prof.kinds.iter().map(|x| *x as usize).sum::<usize>().max(1);
     let mut slots = vec![];
@@ -171,7 +175,7 @@ pub fn decode(data: &[u8], prof: &Profile) -> Scenario {
         init.push(SlotInit { active, parts, deps });
     }
     let nsteps = 1 + src.below(prof.max_steps);
-    let mut steps = vec![];
+    let mut steps: Vec<Step> = vec![];
     for si in 0..nsteps {
         let nedits = if si == 0 { 0 } else { src.below(4) };
         let mut edits = vec![];
@@ -215,6 +219,21 @@ pub fn decode(data: &[u8], prof: &Profile) -> Scenario {
             };
             if let Some(e) = e {
                 edits.push(e);
+            }
+        }
+        // "removed and later re-added": now and then a step takes back the structural edits of
+        // the step before it (toggles are their own inverse)
+        let undo = src.chance(48);
+        if undo && si >= 2 {
+            let prev: Vec<Edit> = steps[si - 1usize]
+                .edits
+                .iter()
+                .filter(|e: &&Edit| matches!(e, Edit::ToggleJob(_) | Edit::ToggleDep { .. } | Edit::TogglePart(..)))
+                .cloned()
+                .collect();
+            if !prev.is_empty() {
+                edits.retain(|e| !matches!(e, Edit::ToggleJob(_) | Edit::ToggleDep { .. } | Edit::TogglePart(..)));
+                edits.extend(prev);
             }
         }
         let mut fail = 0u32;
@@ -275,6 +294,7 @@ fn set_slot(sc: &mut Scenario, i: usize, kind: Kind, deps: &[usize]) {
 ///  1: a chain of three up-to-date Ephemerals above an Output whose other input changes late
 ///  2: an Ephemeral with two consumers, one of which has a second input that fails or changes
 ///     while the Ephemeral runs (concurrency)
+///  3: a fan-in (several upstreams of one job decided within one round of signals)
 fn ensure_slots(sc: &mut Scenario, need: usize) {
     while sc.slots.len() < need {
         let i = sc.slots.len();
@@ -284,13 +304,15 @@ fn ensure_slots(sc: &mut Scenario, need: usize) {
 }
 
 fn plant_motif(sc: &mut Scenario, feat: u16, mv: u8) {
-    let which = mv % 3;
-    let var = mv / 3;
+    let which = mv % 4;
+    let var = mv / 4;
     let extended = which == 0 && var & 8 != 0;
+    let fan = 3 + (var & 1) as usize;
     let need = match which {
         0 => if extended { 8 } else { 6 },
         1 => 6,
-        _ => 4,
+        2 => 4,
+        _ => 2 + fan * if var & 2 == 0 { 3 } else { 1 },
     };
     ensure_slots(sc, need);
     // a grown scenario needs longer choice streams (derived from the generated ones)
@@ -364,6 +386,41 @@ fn plant_motif(sc: &mut Scenario, feat: u16, mv: u8) {
             st.edits = vec![Edit::Bump(0)];
             st.plan.abort = None;
             st.plan.fail &= !0b11111;
+        }
+        3 => {
+            // fan-in: `fan` Output jobs below a common Always root and above a common sink, so that
+            // several upstreams of one job finish (or are skipped) within one round of signals;
+            // optionally each has its own Ephemeral input shared with a side consumer whose output
+            // is deleted before the second evaluation (the Ephemerals run, the fan is skipped)
+            let with_eph = var & 2 == 0;
+            set_slot(sc, 0, Kind::Always, &[]);
+            let (eph0, mid0) = if with_eph { (1, 1 + fan) } else { (0, 1) };
+            for k in 0..fan {
+                if with_eph {
+                    set_slot(sc, eph0 + k, Kind::Ephemeral, &[]);
+                    set_slot(sc, mid0 + k, Kind::Output, &[0, eph0 + k]);
+                } else {
+                    set_slot(sc, mid0 + k, Kind::Output, &[0]);
+                }
+            }
+            let sink = mid0 + fan;
+            let mids: Vec<usize> = (mid0..mid0 + fan).collect();
+            set_slot(sc, sink, if var & 4 == 0 { Kind::Always } else { Kind::Output }, &mids);
+            let mut edits = vec![];
+            if with_eph {
+                for k in 0..fan {
+                    set_slot(sc, sink + 1 + k, Kind::Output, &[eph0 + k]);
+                    edits.push(Edit::Delete(sink + 1 + k, 1));
+                }
+            }
+            if var & 8 != 0 {
+                edits.push(Edit::Bump(0));
+            }
+            let st = &mut sc.steps[1];
+            st.edits = edits;
+            st.plan.abort = None;
+            st.plan.fail = 0;
+            st.plan.sched.max_running = st.plan.sched.max_running.max(2 + (var >> 4) % 3);
         }
         _ => {
             set_slot(sc, 0, if var & 1 == 0 { Kind::Always } else { Kind::Output }, &[]);
